@@ -1,12 +1,12 @@
 /- Line-protocol driver for the C13 patch machine (one JSON request per line).
 
-   {"op":"run","isClass":[bool..],"mro":[[tgt..]..],"own":[[t,a,V]..],"ps":[[t,a,V,count]..],
+   {"op":"run","isClass":[bool..],"mro":[[tgt..]..],"own":[[t,a,V]..],"ps":[[t,a,V,ownV|null,count]..],
     "reg":[[t,a,k]..],"prog":P,"keys":[[t,a]..]}
      V = {"tok":n} | {"static":n} | {"classm":n} | {"bound":n,"t":t} | {"wrap":k,"orig":V|null}
      P = {"t":"skip"|"raise"} | {"t":"seq","a":P,"b":P} | {"t":"catch","body":P}
        | {"t":"patches","specs":[S..],"body":P} | {"t":"monkey","faults":[F..],"body":P}
      S = {"tgt":t,"attr":a,"assign":V | "monkey":k,"fault":F}    F = "none"|"resolve"|"make"|"set"
-   -> raised=<b> good=<b> entryOk=<b> own=[t.a=V;..] ps=[t.a=V#c;..] look=[t.a=V;..]   (over "keys")
+   -> raised=<b> own=[t.a=V;..] ps=[t.a=V/ownV#c;..] look=[t.a=V;..]   (over "keys"; ownV = - if missing)
       V rendered as t5 | s5 | c5 | b5@2 | w3(V) | w3(-)
 -/
 import Lean.Data.Json
@@ -92,20 +92,25 @@ def stepRun (j : Json) : Option String := do
   let psL ← optAll (fun (e : Json) => do
       let a ← e.getArr?.toOption
       let v ← parseVal (← a[2]?)
-      pure ((← natAt a 0), (← natAt a 1), v, (← natAt a 3))) (← psJ.getArr?.toOption).toList
+      let ownJ ← a[3]?
+      let own : Option Val ← (match ownJ with
+        | .null => some none
+        | j => (parseVal j).map some)
+      pure ((← natAt a 0), (← natAt a 1), v, own, (← natAt a 4))) (← psJ.getArr?.toOption).toList
   let regJ ← (j.getObjValAs? (Array (Array Nat)) "reg").toOption
   let reg : List Site := regJ.toList.map fun a => ⟨a.getD 0 0, a.getD 1 0, a.getD 2 0⟩
   let keysJ ← (j.getObjValAs? (Array (Array Nat)) "keys").toOption
   let keys : List (Nat × Nat) := keysJ.toList.map fun a => (a.getD 0 0, a.getD 1 0)
   let prog ← parseProg (← (j.getObjVal? "prog").toOption)
   let own0 : Own := ownL.foldl (fun o (e : Nat × Nat × Val) => setOwn o e.1 e.2.1 (some e.2.2)) (fun _ _ => none)
-  let ps0 : PS := psL.foldl (fun p (e : Nat × Nat × Val × Nat) => setPS p e.1 e.2.1 (some (e.2.2.1, e.2.2.2)))
-    (fun _ _ => none)
+  let ps0 : PS := psL.foldl (fun p (e : Nat × Nat × Val × Option Val × Nat) =>
+      setPS p e.1 e.2.1 (some (e.2.2.1, e.2.2.2.1, e.2.2.2.2))) (fun _ _ => none)
   let r := run H reg prog ⟨own0, ps0⟩
   let ownS := keys.filterMap fun (t, a) => (r.st.own t a).map fun v => s!"{t}.{a}={showVal v}"
-  let psS := keys.filterMap fun (t, a) => (r.st.ps t a).map fun (v, c) => s!"{t}.{a}={showVal v}#{c}"
+  let psS := keys.filterMap fun (t, a) => (r.st.ps t a).map fun (v, w, c) =>
+    s!"{t}.{a}={showVal v}/{match w with | some x => showVal x | none => "-"}#{c}"
   let lkS := keys.filterMap fun (t, a) => (lookup H r.st.own t a).map fun v => s!"{t}.{a}={showVal v}"
-  pure s!"raised={r.raised} good={r.good} entryOk={r.entryOk} own=[{";".intercalate ownS}] ps=[{";".intercalate psS}] look=[{";".intercalate lkS}]"
+  pure s!"raised={r.raised} own=[{";".intercalate ownS}] ps=[{";".intercalate psS}] look=[{";".intercalate lkS}]"
 
 def step (line : String) : String :=
   match Json.parse line with
